@@ -210,6 +210,13 @@ class C05(StreamProp):
             role, data = heads[hi]
             chunks = [c for c in (data[pre:cut], data[cut:]) if c]
             out.append(gen_streams.reader_case('h%d' % k2, role, chunks, 6, rbs=rbs, pre=data[:pre], wb_between=(k2 % 3 == 0))); k2 += 1
+        # a frame larger than the default read buffer (128 KiB) with the next frames arriving in the same read as its tail
+        for role in 'sc':
+            bigp = bytes((i * 7) & 255 for i in range(140000))
+            data = gen_e2.peer_frame(role, 2, bigp) + gen_e2.peer_frame(role, 1, b'after') + gen_e2.peer_frame(role, 9, b'p') + gen_e2.peer_frame(role, 2, b'\x01\x02')
+            hl = len(data) - 140000 - 30
+            for chunks in ([data], [data[:1000], data[1000:]], [data[:hl + 140000 - 5], data[hl + 140000 - 5:]], [data[:len(data) - 12], data[len(data) - 12:]]):
+                out.append(gen_streams.reader_case('big%d' % k2, role, chunks, 8, rbs=rng.choice([4096, 131072]))); k2 += 1
         # exhaustive pairs of cuts for short streams
         short = [b''.join(gen_streams.stream_case(rng)['frames']) for _ in range(30)]
         k = 0
@@ -309,6 +316,15 @@ class C06(StreamProp):
                 for n in (F + 1, 2**16, 2**20, 2**27, 2**32, 2**63 - 1, 2**63, 2**64 - 1):
                     hdr = bytes([0x82, (0x80 if role == 's' else 0) | 127]) + n.to_bytes(8, 'big') + (b'\x01\x02\x03\x04' if role == 's' else b'')
                     out.append(gen_streams.reader_case('l%d' % k, role, [hdr], 4, mms=M, mfs=F, rbs=rbs, end=None)); k += 1
+        # the caller keeps reading after Error::Utf8 on a continuation fragment (valid prefix + invalid byte): what was appended counts
+        for role in 'sc':
+            pf = lambda op, p_, **kw: gen_e2.peer_frame(role, op, p_, **kw)
+            for lim in (50, 100):
+                for rep in (1, 3, 8):
+                    frames = [pf(1, b'a' * 20, fin=False)] + [pf(0, b'b' * 30 + b'\xff', fin=False)] * rep + [pf(0, b'c' * 40, fin=False), pf(0, b'd' * 40)]
+                    rds = []
+                    for fr in frames: rds += ['d:' + ws.hx(fr), 'e:wb']
+                    out.append(ws.scase_line('ue%d' % k, role, ['r'] * (2 * len(frames) + 2), rds, [], [], mms=lim)); k += 1
         return reid(out) + ['EP ep0'] + limit_change_cases(rng, 60 if tier == 'quick' else 600)
     def monitor(self, case_line, trace, mline):
         if case_line.startswith('SI '):
@@ -406,6 +422,17 @@ class C08(StreamProp):
                     fr = gen_e2.peer_frame(role, 8, gen_e2.close_payload(code, reason))
                     out.append(gen_streams.reader_case('t%d' % k, role, [fr], 2)); k += 1
                     out.append(ws.scase_line('t%d' % k, role, ['c:-', 'r', 'r'], ['d:' + ws.hx(fr)], ['a:1000'] * 4, [])); k += 1
+        # max_message_size equal to (or 1-2 bytes above) the real total while a fragment ends inside a character: the undecoded
+        # tail counts as the bytes it is, not more
+        for txt in ('a\u00e9b', '\u20acuro', 'x\U0001F600y', '\u00e9\u20ac\U0001F600'):
+            b = txt.encode()
+            for c1 in range(1, len(b)):
+                for c2 in (None,) + tuple(range(c1 + 1, len(b))):
+                    parts = [b[:c1], b[c1:]] if c2 is None else [b[:c1], b[c1:c2], b[c2:]]
+                    for extra in (0, 1, 2):
+                        role = 'c' if k % 2 else 's'
+                        frames = [gen_e2.peer_frame(role, 1 if i == 0 else 0, p_, fin=(i == len(parts) - 1)) for i, p_ in enumerate(parts)]
+                        out.append(gen_streams.reader_case('t%d' % k, role, [b''.join(frames)], len(parts) + 2, mms=len(b) + extra)); k += 1
         # a multi-byte character cut by fragments that are valid (or empty) on their own
         for ch in ('é', '€', '\U0001F600'):
             b = ch.encode()
@@ -627,6 +654,18 @@ class C09(E2Prop):
                     ops = ['wf:1000:%d:%s:%s' % (opc, preset, ws.hx(bytes((i * 7 + n) & 255 for i in range(n)))), 'wt:6869',
                            'wf:1000:2:%s:0102' % preset, 'f']
                     out.append(ws.scase_line('rw%d' % k, 'c', ops, [], [], [], seed=rng.randint(0, 2**32 - 1))); k += 1
+        # a pong parked behind a momentarily full buffer is replaced by the Close reply when the peer closes: what goes out is a Close frame
+        for role in 'sc':
+            for code in (1000, 1005, 3000):
+                data = bytes(range(16)); fsz = gen_e2.frame_size(role, 16)
+                fr = gen_e2.peer_frame(role, 8, gen_e2.close_payload(code, b'bye'))
+                ping = gen_e2.peer_frame(role, 9, b'pp')
+                for together in (True, False):
+                    rds = ['d:' + ws.hx(ping + fr)] if together else ['d:' + ws.hx(ping), 'd:' + ws.hx(fr)]
+                    for mx in (fsz, fsz + 3, fsz + 30):
+                        reply = 5 if ws.close_allowed(code) else 20
+                        out.append(ws.scase_line('pk%d' % k, role, ['wb:' + ws.hx(data), 'r', 'r', 'f', 'f', 'f', 'f'], rds,
+                                                 ['e:wb', 'e:wb', 'e:wb'], [], max_=max(mx, gen_e2.frame_size(role, reply)))); k += 1
         # automatic replies to peer control frames at and around the 125-byte limit
         for role in 'sc':
             for n in (0, 1, 124, 125, 126, 127, 200):
@@ -812,6 +851,10 @@ class C11(E2Prop):
                             for tail_op in ('r', 'f'):
                                 ops = ['wb:' + ws.hx(bytes(range(dlen))), 'r', 'r'] + [tail_op] * 5
                                 out.append(ws.scase_line('q%d' % k, role, ops, ['d:' + ws.hx(pf)], ['e:wb'] * nblock + ['a:100000'] * 8, [], max_=mx)); k += 1
+                                # reading continues meanwhile: a data frame that arrived behind the ping is delivered although the pong is parked
+                                tf = gen_e2.peer_frame(role, 1, b'next')
+                                ops = ['wb:' + ws.hx(bytes(range(dlen))), 'r', 'r', 'r'] + [tail_op] * 5
+                                out.append(ws.scase_line('q%d' % k, role, ops, ['d:' + ws.hx(pf + tf)], ['e:wb'] * (nblock + 2) + ['a:100000'] * 8, [], max_=mx)); k += 1
                                 # a second ping is read while the first pong is still parked: the newer pong replaces it and must go out
                                 pf2 = gen_e2.peer_frame(role, 9, ping + b'2')
                                 mx2 = max(mx, gen_e2.frame_size(role, len(ping) + 1))
@@ -1077,6 +1120,11 @@ class C07(E2Prop):
             out.append(gen_hs.hs_case('mq%d' % i, rng.choice(gen_hs.CALLBACKS), ['r'], gen_hs.rds_of(gen_hs.segment(rng, m_, rng.choice([1, 1, 3]))), [], []))
             m2 = gen_hs.mutate_head(rng, good_resp)
             out.append(gen_hs.hc_case('mr%d' % i, b'ws://example.com/', ops=['r'], rds=gen_hs.rds_of(gen_hs.segment(rng, m2, rng.choice([1, 1, 3])))))
+        # one message in thousands of one-byte fragments, all available to a single read(): stack use must not grow with the input
+        for role in 'sc':
+            nfr = 40000
+            frs = [gen_e2.peer_frame(role, 2 if i == 0 else 0, b'z', fin=(i == nfr - 1)) for i in range(nfr)]
+            out.append('SN' + ws.scase_line('deep%s' % role, role, ['r', 'r'], ['d:' + ws.hx(b''.join(frs))], [], [], mms=100000)[1:])
         # handshake half: reuse the C17 generator (heads x transport outcomes) with unique ids
         hs = C17().generate(tier, rng)
         for k, c in enumerate(hs):
@@ -1086,7 +1134,7 @@ class C07(E2Prop):
                 continue
             f = c.split(' '); f[1] = 'hs%d' % k; out.append(' '.join(f))
         return out
-    impl_only_kinds = ('TP',)
+    impl_only_kinds = ('TP', 'SN')
     model_only_kinds = ('AC',)
     def model_monitor(self, case_line, mtrace):
         return None
